@@ -18,4 +18,6 @@ def jobs(tier):
             *[Job(name=f"macro-arg-k{k}", src="args.c", group="C09.5 argument collection", defs={"NA": "4", "K0": str(k)}, cbmc_flags=["--paths lifo"],
                   bounded="token sequences of length <= 4 over ( ) , { } x", sample="read_macro_arg_one on every sequence of up to 4 tokens", **dict(P, unwind=10)) for k in range(6)],
             Job(name="stringize-spacing", src="stringize.c", group="C09.4 # operator", bounded="three-token argument", sample="join_tokens on a three-token argument with symbolic white-space flags", **dict(P, unwind=10)),
+            Job(name="expand-empty", src="hideset.c", group="C09.2 application discipline", defs={"FN": "3"}, redirect={"find_macro": "stub_find_macro"}, bounded="one object-like macro with an empty body", sample="expand_macro on an empty object-like macro followed by a token with symbolic flags", **P),
+            Job(name="expand-hash", src="hideset.c", group="C09.2 application discipline", defs={"FN": "4"}, redirect={"find_macro": "stub_find_macro"}, bounded="one object-like macro whose body is #", sample="expand_macro producing a '#' at a line start", **P),
             Job(name="expand-funclike-noparen", src="hideset.c", group="C09.2 application discipline", defs={"FN": "2"}, redirect={"find_macro": "stub_find_macro"}, bounded="one function-like macro", sample="function-like macro name not followed by '('", **P)]
